@@ -220,12 +220,31 @@ func (ld *Loaded) constructedByScan(fd *FieldDecl) *FuncResult {
 
 // callName: how a call site is named in 'order' clauses: the callee's key suffix, an interface
 // method "Iface.Method", or an atomic point name ("store c.running").
+// helperHasContract is set by the loader: does a repository function have its own contract?
+var helperHasContract = func(fn *ssa.Function) bool { return true }
+
 func callNames(in ssa.Instruction) []string {
+	return callNamesDepth(in, 0)
+}
+
+func callNamesDepth(in ssa.Instruction, depth int) []string {
 	c, ok := in.(ssa.CallInstruction)
 	if !ok {
 		return nil
 	}
 	cc := c.Common()
+	// a call of an uncontracted repository helper stands for the calls the helper makes
+	if sc := cc.StaticCallee(); sc != nil && depth < 3 && sc.Blocks != nil && !helperHasContract(sc) {
+		if tp := typesPkgOf(sc); tp != nil && strings.HasPrefix(tp.Path(), "github.com/go-netty/") {
+			var inner []string
+			for _, b := range sc.Blocks {
+				for _, in2 := range b.Instrs {
+					inner = append(inner, callNamesDepth(in2, depth+1)...)
+				}
+			}
+			return append(inner, fnKey(sc), sc.Name())
+		}
+	}
 	if cc.IsInvoke() {
 		k := strings.TrimPrefix(ifaceMethodKey(cc.Method), "iface:")
 		short := k
@@ -439,7 +458,7 @@ func (ld *Loaded) cellFreshScan(fd *FieldDecl) *FuncResult {
 	fmt.Sscanf(fd.Arg, "%d", &argi)
 	var bad []string
 	n := 0
-	for _, fn := range ld.fnByKey[key] {
+	for _, fn := range ld.withHelpers(ld.fnByKey[key]) {
 		for _, b := range fn.Blocks {
 			for i, in := range b.Instrs {
 				call, ok := in.(*ssa.Call)
@@ -447,7 +466,7 @@ func (ld *Loaded) cellFreshScan(fd *FieldDecl) *FuncResult {
 					continue
 				}
 				hit := false
-				for _, nme := range callNames(call) {
+				for _, nme := range callNamesDepth(call, 99) {
 					if nme == fd.Field || strings.HasSuffix(nme, "."+fd.Field) {
 						hit = true
 					}
@@ -544,4 +563,34 @@ func (ld *Loaded) methodsScan(fd *FieldDecl) *FuncResult {
 		o.Detail += "; FAILS: " + strings.Join(bad, " | ")
 	}
 	return &FuncResult{Key: "static:" + o.Name, Obls: []*Obligation{o}}
+}
+
+// withHelpers: the functions plus the repository helpers without a contract they call statically
+// (what the VC generator executes in place).
+func (ld *Loaded) withHelpers(fns []*ssa.Function) []*ssa.Function {
+	seen := map[*ssa.Function]bool{}
+	var out []*ssa.Function
+	var add func(fn *ssa.Function, d int)
+	add = func(fn *ssa.Function, d int) {
+		if fn == nil || seen[fn] || d > 3 {
+			return
+		}
+		seen[fn] = true
+		out = append(out, fn)
+		for _, b := range fn.Blocks {
+			for _, in := range b.Instrs {
+				if c, ok := in.(ssa.CallInstruction); ok {
+					if sc := c.Common().StaticCallee(); sc != nil && sc.Blocks != nil && !helperHasContract(sc) {
+						if tp := typesPkgOf(sc); tp != nil && strings.HasPrefix(tp.Path(), "github.com/go-netty/") {
+							add(sc, d+1)
+						}
+					}
+				}
+			}
+		}
+	}
+	for _, fn := range fns {
+		add(fn, 0)
+	}
+	return out
 }
